@@ -94,7 +94,8 @@ def handle (st : St) (idx : Nat) (line : String) : St × String :=
        | some b => (st, emit idx impl (judgeRetry ((kvNat rest "r").getD 0) (parseOutcomes ((kv rest "outs").getD "-")) b implToks))
        | none => bad)
     | "conn" :: "serve" :: rest =>
-      (st, emit idx impl (judgeConn dict ((kvNat rest "n").getD 1) ((kv rest "ev").getD "") implToks))
+      (st, emit idx impl (judgeConn dict ((kvNat rest "n").getD 1) (kv rest "h" == some "mux") (kv rest "x" == some "1") ((kv rest "ev").getD "") implToks))
+    | "conn" :: "accept" :: rest => (st, emit idx impl (judgeAccept ((kv rest "ev").getD "") implToks))
     | "conn" :: "cwrite" :: _ => (st, emit idx impl (judgeCwrite implToks))
     | "stream" :: "read" :: rest =>
       (match fromHex (rest.getLast?.getD "") with
